@@ -14,6 +14,9 @@ from gen import g1
 from corr.c01 import component_sizes, stems_of
 
 OPS = ["str", "pairs", "dot_bracket", "fcfs", "all_dot_brackets", "elements", "without_isolated", "without_pseudoknots"]
+# further public calls that must not disturb the object either; they are compared with fresh objects (the property
+# itself) but are not operations of the Lean object model, whose history is the sequence without them
+EXTRA_OPS = ["convert_none", "convert_default", "sequence"]
 
 
 def answer(b, op):
@@ -34,6 +37,14 @@ def answer(b, op):
         return call(lambda: str(b.without_isolated()))
     if op == "without_pseudoknots":
         return call(lambda: str(b.without_pseudoknots()))
+    if op == "convert_none":
+        # the documented call with an explicit solver; None = "no solver available"
+        return call(lambda: b.convert_to_dot_bracket(None).structure)
+    if op == "convert_default":
+        import pulp
+        return call(lambda: b.convert_to_dot_bracket(pulp.LpSolverDefault).structure)
+    if op == "sequence":
+        return call(lambda: b.sequence)
     raise ValueError(op)
 
 
@@ -89,7 +100,13 @@ def run(ctx):
     structs = [(s, p) for s, p in structs if (lambda z: z is not None and max(z or [0]) <= 6)(component_sizes(p))]
     cases = []
     # exhaustive short histories on a handful of structures with isolated pairs and pseudoknots
-    seeds = [g1.from_dbn("(.[.).]"), g1.from_dbn("((..)).(.)"), g1.from_dbn("(([..))..].(.)"), g1.from_dbn("....")]
+    seeds = [g1.from_dbn("(.[.).]"), g1.from_dbn("((..)).(.)"), g1.from_dbn("(([..))..].(.)"), g1.from_dbn("...."),
+             g1.from_dbn("(.[[[.)..]]]", "gCaUNcgau?Aa")]
+    for s, p in seeds:
+        for x in EXTRA_OPS:
+            for op in OPS:
+                cases.append((s, p, [x, op]))
+                cases.append((s, p, [op, x, op]))
     kmax = ctx.pick(2, 4)
     for s, p in seeds:
         for k in range(1, kmax + 1):
@@ -99,6 +116,11 @@ def run(ctx):
     for s, p in structs:
         k = rng.randint(2, lmax)
         cases.append((s, p, [rng.choice(OPS) for _ in range(k)]))
+        if rng.random() < 0.5:
+            # one of the further public calls somewhere in the history
+            ops = [rng.choice(OPS) for _ in range(k)]
+            ops.insert(rng.randrange(len(ops)), rng.choice(EXTRA_OPS))
+            cases.append((s, p, ops))
         # bias: a removal first, then queries (where aliasing would show)
         cases.append((s, p, [rng.choice(["without_isolated", "without_pseudoknots"])] + [rng.choice(OPS) for _ in range(k - 1)]))
     outs = parallel_map(real, cases)
@@ -106,7 +128,7 @@ def run(ctx):
     for ci, ((seq, pairs, ops), o) in enumerate(zip(cases, outs)):
         ps = g1.pstr(pairs)
         db = o["db"][1] if o["db"][0] == "ok" else "err:" + o["db"][1]
-        reqs.append(["ss.history", seq, ps, db, ",".join(ops)]); idx.append((ci, "hist"))
+        reqs.append(["ss.history", seq, ps, db, ",".join(x for x in ops if x in OPS)]); idx.append((ci, "hist"))
         if "nopk_text" in o:
             reqs.append(["ss.nopk", seq, ps, db]); idx.append((ci, "nopk"))
         if "noiso_text" in o:
@@ -128,7 +150,8 @@ def run(ctx):
         inp = {"seq": seq, "pairs": pairs, "ops": ops}
         if what == "hist":
             model = []
-            for a, op in zip(r.split(";") if r else [], ops):
+            mops = [x for x in ops if x in OPS]
+            for a, op in zip(r.split(";") if r else [], mops):
                 if a.startswith("ok:"):
                     t = bytes.fromhex(a[3:]).decode() if a[3:] != "" else ""
                     if op == "all_dot_brackets":
@@ -136,10 +159,10 @@ def run(ctx):
                     model.append(("ok", t))
                 else:
                     model.append(("err", a[4:]))
-            fresh = [tuple(x) for x in o["fresh"]]
+            fresh = [tuple(x) for x, op in zip(o["fresh"], ops) if op in OPS]
             if model != fresh:
                 k = next((i for i, (m, f) in enumerate(zip(model, fresh)) if m != f), None)
-                res.fail("corr", "C12:history:%s" % (ops[k] if k is not None else "len"), inp,
+                res.fail("corr", "C12:history:%s" % (mops[k] if k is not None else "len"), inp,
                          "model answer differs from a fresh object's at step %r: model=%r fresh=%r" % (k, model[k] if k is not None else model, fresh[k] if k is not None else fresh))
         elif what == "nopk":
             if ent_text(r) != o["nopk_text"]:
